@@ -319,6 +319,99 @@ def gen_geometry(r, basic=False, depth=None, allow_array=True):
     return Geometry(unis, tol)
 
 
+def t_up_point(tr, p):
+    """daughter -> parent coordinates"""
+    if not tr:
+        return list(p)
+    if len(tr) == 3:
+        return [p[i] + tr[i] for i in range(3)]
+    rm, t = tr[:9], tr[9:]
+    return [rm[3 * i] * p[0] + rm[3 * i + 1] * p[1] + rm[3 * i + 2] * p[2] + t[i] for i in range(3)]
+
+
+def deep_rotation(r, lev):
+    """rotations that do NOT commute between consecutive levels: a different
+    principal axis at each level (quarter/eighth/third turns) or a general
+    rotation; sometimes with a reflection"""
+    axes = [[0.0, 0.0, 1.0], [1.0, 0.0, 0.0], [0.0, 1.0, 0.0]]
+    k = r.random()
+    if k < 0.55:
+        m = rot_axis(axes[lev % 3], 2 * math.pi * r.choice([0.25, 0.25, 0.125, 1 / 3, 0.375, -0.25]))
+    else:
+        m = rot_axis(unit_vec(r), r.uniform(0.6, 2.6))
+    if r.random() < 0.25:
+        f = [[1, 0, 0], [0, 1, 0], [0, 0, 1]]
+        a = r.randrange(3)
+        f[a][a] = -1
+        m = matmul(m, f)
+    return m
+
+
+def gen_deep_geometry(r, basic=False, depth=None):
+    """chain of 3-4 nested units, every placement rotated (different axes at
+    consecutive levels, reflections); the innermost unit has surfaces through
+    its centre so that boundaries with surface_level >= 2 are hit.  The global
+    positions of the nested centres are recorded in geo.targets."""
+    if depth is None:
+        depth = r.choice([3, 3, 4])
+    unis = []
+    chain = []          # transforms from the world down to the deepest unit
+    size = 10.0
+    centre = [0.0, 0.0, 0.0]
+    parent = None
+    for lev in range(depth):
+        last = lev == depth - 1
+        name = "d%d" % lev
+        for _ in range(20):
+            U, cells = gen_unit(r, name, centre, size, lev == 0, basic, max_vols=5)
+            anchored = [i for i, c in enumerate(cells) if c.anchor is not None]
+            if last or anchored:
+                break
+        if last:
+            # make sure something passes through the centre of the innermost unit
+            k = r.random()
+            if k < 0.6 or not U.surfaces:
+                conj = [i for i, c in enumerate(cells) if c.lits is not None]
+                if conj:
+                    ci = r.choice(conj)
+                    c = cells[ci]
+                    off = [r.uniform(-0.15, 0.15) * size for _ in range(3)]
+                    t, d = rand_split_surface(r, off, size * 0.2, ['aplane', 'plane', 'sphere'] if basic else
+                                              ['aplane', 'plane', 'sphere', 'cyl', 'cone'])
+                    sid = U.add_surface(t, d)
+                    newc = [Cell(lits=c.lits + [('s', sid, False)]), Cell(lits=c.lits + [('s', sid, True)])]
+                    bgv = U.volumes[-1] if U.volumes[-1].zorder == 'B' else None
+                    cells = cells[:ci] + cells[ci + 1:] + newc
+                    U.volumes = [U.volumes[0]] + [Vol(x.reg(), None, "%s.v%d" % (name, i + 1)) for i, x in enumerate(cells)]
+                    if bgv is not None:
+                        U.volumes.append(bgv)
+        unis.append(U)
+        if parent is not None:
+            pu, pvol, tr = parent
+            unis[pu].daughters[pvol] = (len(unis) - 1, tr)
+            chain.append(tr)
+        if last:
+            break
+        ci = r.choice(anchored)
+        t, sz = cells[ci].anchor
+        m = deep_rotation(r, lev)
+        tr = [m[i][j] for i in range(3) for j in range(3)] + [float(x) for x in t]
+        parent = (len(unis) - 1, ci + 1, tr)
+        size = sz
+        centre = [0.0, 0.0, 0.0]
+    geo = Geometry(unis, r.choice([1e-8, 1e-8, 1e-6]))
+    # global positions of the nested centres (deepest first)
+    targets = []
+    for k in range(len(chain), 0, -1):
+        p = [0.0, 0.0, 0.0]
+        for tr in reversed(chain[:k]):
+            p = t_up_point(tr, p)
+        targets.append(p)
+    geo.targets = targets
+    geo.inner_size = size
+    return geo
+
+
 def gen_array_geometry(r, basic=True):
     """world box with a carved box holding a rectangular array of small units
     (dyadic coordinates so that the grid planes and the placeholder's planes
@@ -371,6 +464,21 @@ def gen_ray(r, geo, tries=60):
         if st[0][1] == 0:
             continue
         k = r.random()
+        targets = getattr(geo, "targets", None)
+        if targets:
+            # nested chain: start inside or near the innermost universe half of the time
+            tg = targets[0] if r.random() < 0.7 else r.choice(targets)
+            sz = getattr(geo, "inner_size", 1.0)
+            if r.random() < 0.5:
+                q = [tg[i] + r.uniform(-0.6, 0.6) * sz for i in range(3)]
+                st2, m2, _ = geo.locate(q)
+                if st2 is not None and m2 >= 1e-3 and st2[0][1] != 0:
+                    p = q
+            aim = [tg[i] + r.uniform(-0.3, 0.3) * sz for i in range(3)]
+            d = [aim[i] - p[i] for i in range(3)]
+            if sum(x * x for x in d) < 1e-4 or r.random() < 0.15:
+                d = unit_vec(r)
+            return p, normalize(d)
         if k < 0.2:
             d = [0.0, 0.0, 0.0]
             d[r.randrange(3)] = r.choice([-1.0, 1.0])
@@ -398,7 +506,7 @@ def fmt_dir(u):
     return " ".join(float(x).hex() for x in u)
 
 
-def gen_program(r, nseg, dir0=None):
+def gen_program(r, nseg, dir0=None, boundary_heavy=False):
     """list of op lines respecting the documented call order (ops whose
     preconditions fail at run time are skipped by the driver)"""
     ops = []
@@ -422,8 +530,15 @@ def gen_program(r, nseg, dir0=None):
 
     for _ in range(nseg):
         k = r.random()
-        if k < 0.22:
+        if boundary_heavy and r.random() < 0.5:
+            k = r.uniform(0.36, 0.70)       # one of the set_dir-on-boundary patterns
+        if k < 0.10:
             ops += ["F", "B", "X"]
+        elif k < 0.16:       # move_internal keeps the cached step: move on to the boundary without a new search
+            ops += ["F", "M %s" % float(r.uniform(0.1, 0.9)).hex(), "B", "X"]
+        elif k < 0.22:
+            ops += ["F", "M %s" % float(r.uniform(0.1, 0.6)).hex(),
+                    "M %s" % float(r.uniform(0.1, 0.9)).hex(), "B", "X"]
         elif k < 0.36:
             ops += ["F", "M %s" % float(r.uniform(0.05, 0.95)).hex()]
         elif k < 0.52:       # set_dir on the boundary before crossing
